@@ -1273,21 +1273,28 @@ def r715(e: Engine, rep: Report):
                     return True
         return False
 
-    def step(n, label, st):
+    nul = common.Nullness(g, e)
+
+    def step(n, label, st0):
+        st, ns = st0
         if isinstance(label, tuple):
-            return st
+            return st0
+        ns = nul.step(n, label, ns)
+        if ns == 'infeasible':
+            return None
         if n.kind == 'stmt' and isinstance(n.ast, ast.Assign) and any(
                 isinstance(x, ast.Name) and x.id in found
                 for t in n.ast.targets for x in ast.walk(t)):
-            return False
+            return (False, ns)
         if n.kind == 'test' and label in ('T', 'F') and \
                 establishes(n, label):
-            return True
-        return st
+            return (True, ns)
+        return (st, ns)
     for r in rets:
         rep.evaluations += 1
-        w = dataflow.typestate_witness(g, False, step,
-                                       lambda n, st: n is r and not st)
+        w = dataflow.typestate_witness(
+            g, (False, frozenset()), step,
+            lambda n, st: n is r and not st[0])
         rep.check(w is None, 'R7.15', where,
                   '`%s` lies at a line end' % ' '.join(
                       ast.unparse(r.ast).split())[:40],
